@@ -1,6 +1,7 @@
 (* C12: INIT negotiation in the model (do_init) against the client-side reading of the reply. *)
-From Coq Require Import List String NArith Bool Lia.
-From FB Require Import Lib.Bytes Lib.Layout Gen.RustABI Model.Server.
+From Coq Require Import List String NArith Bool Lia Arith.
+From FB Require Import Lib.Bytes Lib.Layout Gen.RustABI Spec.KernelABI Model.Server Model.ServerCmp
+  Spec.Requests Spec.Replies Spec.Init Proofs.ServerInitBits.
 Import ListNotations.
 Local Open Scope N_scope.
 
@@ -22,3 +23,126 @@ Definition fsoptions_all : N :=
 
 Lemma fsoptions_all_has_ext : N.land fsoptions_all INIT_EXT_BIT = INIT_EXT_BIT.
 Proof. vm_compute. reflexivity. Qed.
+
+(* ------------------------------------------------------------------ list plumbing *)
+Lemma skipn_len_app (a rest : bytes) k : skipn (List.length a + k) (a ++ rest) = skipn k rest.
+Proof. induction a as [|x a IH]; cbn [List.length Nat.add app skipn]; [reflexivity|exact IH]. Qed.
+
+Lemma firstn_len_app (a rest : bytes) k : firstn (List.length a + k) (a ++ rest) = a ++ firstn k rest.
+Proof. induction a as [|x a IH]; cbn [List.length Nat.add app firstn]; [reflexivity|now rewrite IH]. Qed.
+
+Lemma skipn_enc_app w n rest k : skipn (w + k) (enc w n ++ rest) = skipn k rest.
+Proof. rewrite <- (enc_length w n) at 1. apply skipn_len_app. Qed.
+
+Lemma firstn_enc_app w n rest k : firstn (w + k) (enc w n ++ rest) = enc w n ++ firstn k rest.
+Proof. rewrite <- (enc_length w n) at 1. apply firstn_len_app. Qed.
+
+Lemma firstn_enc_exact w n rest : firstn w (enc w n ++ rest) = enc w n.
+Proof. apply take_app_exact, enc_length. Qed.
+
+Lemma dec_enc4 n : dec (enc 4 n) = n mod 2 ^ 32.
+Proof. apply dec_enc. Qed.
+Lemma dec_enc2 n : dec (enc 2 n) = n mod 2 ^ 16.
+Proof. apply dec_enc. Qed.
+
+Lemma u32_skip w n rest k : u32 (w + k) (enc w n ++ rest) = u32 k rest.
+Proof. unfold u32. rewrite skipn_enc_app. reflexivity. Qed.
+Lemma u32_here n rest : u32 0 (enc 4 n ++ rest) = n mod 2 ^ 32.
+Proof. unfold u32. cbn [skipn]. rewrite firstn_enc_exact. apply dec_enc4. Qed.
+Lemma u32_here_end n : u32 0 (enc 4 n) = n mod 2 ^ 32.
+Proof. rewrite <- (app_nil_r (enc 4 n)). apply u32_here. Qed.
+
+(* ------------------------------------------------------------------ kernel-side field access *)
+Definition init_out_leaves : list leaf :=
+  Eval vm_compute in match struct_leaves kernel_structs "fuse_init_out" with Some l => l | None => [] end.
+
+Lemma init_out_leaves_eq : struct_leaves kernel_structs "fuse_init_out" = Some init_out_leaves.
+Proof. vm_compute. reflexivity. Qed.
+
+Lemma kget_init_out path off w sg b :
+  find (fun l => String.eqb (l_path l) path) init_out_leaves
+    = Some {| l_path := path; l_off := off; l_width := w; l_signed := sg |} ->
+  kget "fuse_init_out" path O b = dec (firstn (N.to_nat w) (skipn (N.to_nat off) b)).
+Proof. intro H. unfold kget. rewrite init_out_leaves_eq, H. reflexivity. Qed.
+
+Lemma kget_major b : kget "fuse_init_out" "major" O b = u32 0 b.
+Proof. rewrite (kget_init_out "major" 0 4 false) by (vm_compute; reflexivity). reflexivity. Qed.
+Lemma kget_minor b : kget "fuse_init_out" "minor" O b = u32 4 b.
+Proof. rewrite (kget_init_out "minor" 4 4 false) by (vm_compute; reflexivity). reflexivity. Qed.
+Lemma kget_max_readahead b : kget "fuse_init_out" "max_readahead" O b = u32 8 b.
+Proof. rewrite (kget_init_out "max_readahead" 8 4 false) by (vm_compute; reflexivity). reflexivity. Qed.
+Lemma kget_flags b : kget "fuse_init_out" "flags" O b = u32 12 b.
+Proof. rewrite (kget_init_out "flags" 12 4 false) by (vm_compute; reflexivity). reflexivity. Qed.
+Lemma kget_max_write b : kget "fuse_init_out" "max_write" O b = u32 20 b.
+Proof. rewrite (kget_init_out "max_write" 20 4 false) by (vm_compute; reflexivity). reflexivity. Qed.
+Lemma kget_flags2 b : kget "fuse_init_out" "flags2" O b = u32 32 b.
+Proof. rewrite (kget_init_out "flags2" 32 4 false) by (vm_compute; reflexivity). reflexivity. Qed.
+
+Lemma ksize_init_out : ksize "fuse_init_out" = 64%nat.
+Proof. vm_compute. reflexivity. Qed.
+
+Lemma INIT_EXT_val : INIT_EXT = 2 ^ 30.
+Proof. vm_compute. reflexivity. Qed.
+Lemma INIT_EXT_BIT_val : INIT_EXT_BIT = 2 ^ 30.
+Proof. reflexivity. Qed.
+
+(* ------------------------------------------------------------------ fields of the model's InitOut *)
+Section Fields.
+  Variables major minor ra fl mb ct mw tg mp ma f2 : N.
+  Let out := init_out major minor ra fl mb ct mw tg mp ma f2.
+
+  Lemma out_major : u32 0 out = major mod 2 ^ 32.
+  Proof. unfold out, init_out. apply u32_here. Qed.
+  Lemma out_minor : u32 4 out = minor mod 2 ^ 32.
+  Proof. change (u32 4 out) with (u32 (4 + 0) out). unfold out, init_out. rewrite !u32_skip. apply u32_here. Qed.
+  Lemma out_ra : u32 8 out = ra mod 2 ^ 32.
+  Proof. change (u32 8 out) with (u32 (4 + (4 + 0)) out). unfold out, init_out. rewrite !u32_skip. apply u32_here. Qed.
+  Lemma out_flags : u32 12 out = fl mod 2 ^ 32.
+  Proof. change (u32 12 out) with (u32 (4 + (4 + (4 + 0))) out). unfold out, init_out. rewrite !u32_skip. apply u32_here. Qed.
+  Lemma out_mw : u32 20 out = mw mod 2 ^ 32.
+  Proof.
+    change (u32 20 out) with (u32 (4 + (4 + (4 + (4 + (2 + (2 + 0)))))) out).
+    unfold out, init_out. rewrite !u32_skip. apply u32_here.
+  Qed.
+  Lemma out_flags2 : u32 32 out = f2 mod 2 ^ 32.
+  Proof.
+    change (u32 32 out) with (u32 (4 + (4 + (4 + (4 + (2 + (2 + (4 + (4 + (2 + (2 + 0)))))))))) out).
+    unfold out, init_out. rewrite !u32_skip. apply u32_here.
+  Qed.
+
+  (* the two compat forms *)
+  Definition out24 : bytes :=
+    enc 4 major ++ enc 4 minor ++ enc 4 ra ++ enc 4 fl ++ enc 2 mb ++ enc 2 ct ++ enc 4 mw.
+  Definition out8 : bytes := enc 4 major ++ enc 4 minor.
+
+  Lemma firstn24_out : firstn 24 out = out24.
+  Proof.
+    change 24%nat with (4 + (4 + (4 + (4 + (2 + (2 + (4 + 0)))))))%nat. unfold out, init_out, out24.
+    rewrite !firstn_enc_app. cbn [firstn]. rewrite app_nil_r. reflexivity.
+  Qed.
+  Lemma firstn8_out : firstn 8 out = out8.
+  Proof.
+    change 8%nat with (4 + (4 + 0))%nat. unfold out, init_out, out8.
+    rewrite !firstn_enc_app. cbn [firstn]. rewrite app_nil_r. reflexivity.
+  Qed.
+
+  Lemma out24_major : u32 0 out24 = major mod 2 ^ 32.
+  Proof. unfold out24. apply u32_here. Qed.
+  Lemma out24_ra : u32 8 out24 = ra mod 2 ^ 32.
+  Proof. change (u32 8 out24) with (u32 (4 + (4 + 0)) out24). unfold out24. rewrite !u32_skip. apply u32_here. Qed.
+  Lemma out24_flags : u32 12 out24 = fl mod 2 ^ 32.
+  Proof. change (u32 12 out24) with (u32 (4 + (4 + (4 + 0))) out24). unfold out24. rewrite !u32_skip. apply u32_here. Qed.
+  Lemma out24_mw : u32 20 out24 = mw mod 2 ^ 32.
+  Proof.
+    change (u32 20 out24) with (u32 (4 + (4 + (4 + (4 + (2 + (2 + 0)))))) out24).
+    unfold out24. rewrite !u32_skip. apply u32_here_end.
+  Qed.
+  Lemma out24_length : List.length out24 = 24%nat.
+  Proof. unfold out24. rewrite !app_length, !enc_length. reflexivity. Qed.
+  Lemma out8_major : u32 0 out8 = major mod 2 ^ 32.
+  Proof. unfold out8. apply u32_here. Qed.
+  Lemma out8_length : List.length out8 = 8%nat.
+  Proof. unfold out8. rewrite !app_length, !enc_length. reflexivity. Qed.
+  Lemma out_length : List.length out = 64%nat.
+  Proof. unfold out, init_out. rewrite !app_length, !enc_length. reflexivity. Qed.
+End Fields.
